@@ -967,6 +967,106 @@ Module DocExamples.
   Proof. vm_compute. reflexivity. Qed.
 End DocExamples.
 
+(** * Result.CanonNameRewritten (fix 2e58a5d): what the flag says *)
+
+Section Covered.
+  Variable sort : list entry -> list entry.
+  Hypothesis sort_perm : forall l, Permutation (sort l) l.
+
+  (** The flag processRewrites computes is a function of the canonical name
+      alone: the table covers it, and what findRewrites returns for it does
+      not start with a canonical-name entry. *)
+  Definition canon_covered (tbl : list entry) (qt : N) (canon : bytes) : bool :=
+    covered_after canon (fst (find_rewrites sort tbl canon qt)) (snd (find_rewrites sort tbl canon qt)).
+
+  Lemma chase_covered_spec fuel : forall tbl qt orig host visited canon rws matched r b,
+    find_rewrites sort tbl host qt = (rws, matched) ->
+    canon = host \/ canon = [] ->
+    chase sort fuel tbl qt orig host visited canon rws matched = Some r ->
+    chase_covered sort fuel tbl qt orig host visited canon rws matched = Some b ->
+    r_canon r <> [] -> b = canon_covered tbl qt (r_canon r).
+  Proof.
+    unfold canon_covered.
+    induction fuel as [|fuel IH]; intros tbl qt orig host visited canon rws matched r b F Hc;
+      cbn [chase chase_covered]; [discriminate|].
+    assert (D : forall c, c = host \/ c = [] ->
+                Some (set_result {| r_reason := Rewritten; r_canon := c; r_ips := [] |} rws qt) = Some r ->
+                Some (covered_after c rws matched) = Some b -> r_canon r <> [] ->
+                b = covered_after (r_canon r) (fst (find_rewrites sort tbl (r_canon r) qt))
+                                  (snd (find_rewrites sort tbl (r_canon r) qt))).
+    { intros c Hc' E [= <-] N.
+      assert (E' : r = set_result {| r_reason := Rewritten; r_canon := c; r_ips := [] |} rws qt) by congruence.
+      subst r. clear E. rewrite set_result_canon in *. cbn [r_canon] in *.
+      destruct Hc' as [-> | ->]; [|congruence]. rewrite F. reflexivity. }
+    destruct rws as [|rw rws]; [apply D; auto|].
+    destruct (matched && is_cname rw) eqn:MC; [|apply D; auto].
+    destruct (_ || _); [intros [= <-] _ N; cbn in N; congruence|].
+    destruct (eqb_bytes host (e_ans rw) && is_wildcard (e_dom rw)); [apply D; auto|].
+    destruct (mem_bytes _ _).
+    { intros [= <-] [= <-] N. cbn [r_canon] in *. destruct Hc as [-> | ->]; [|congruence].
+      rewrite F. cbn [fst snd]. apply andb_true_iff in MC as [_ MC].
+      unfold covered_after. rewrite MC. cbn [negb]. rewrite andb_false_r. reflexivity. }
+    destruct (find_rewrites sort tbl (e_ans rw) qt) as [rws' m'] eqn:F'.
+    apply IH; auto.
+  Qed.
+
+  Lemma chase_covered_some fuel : forall tbl qt orig host visited canon rws matched r,
+    chase sort fuel tbl qt orig host visited canon rws matched = Some r ->
+    exists b, chase_covered sort fuel tbl qt orig host visited canon rws matched = Some b.
+  Proof.
+    induction fuel as [|fuel IH]; intros tbl qt orig host visited canon rws matched r;
+      cbn [chase chase_covered]; [discriminate|].
+    destruct rws as [|rw rws]; [eauto|].
+    destruct (matched && is_cname rw); [|eauto].
+    destruct (_ || _); [eauto|]. destruct (_ && _); [eauto|]. destruct (mem_bytes _ _); [eauto|].
+    destruct (find_rewrites sort tbl (e_ans rw) qt) as [rws' m']. apply IH.
+  Qed.
+
+  Theorem covered_flag_spec en tbl host qt r :
+    check_host sort en tbl host qt = Some r -> r_reason r = Rewritten -> r_canon r <> [] ->
+    covered_flag sort en tbl host qt = canon_covered tbl qt (r_canon r).
+  Proof.
+    unfold covered_flag, check_host_covered, check_host.
+    destruct (is_nil host); [intros [= <-]; discriminate|].
+    destruct (negb en); [intros [= <-]; discriminate|].
+    destruct (process_rewrites sort tbl (to_lower host) qt) as [r'|] eqn:P; [|discriminate].
+    destruct (r_reason r') eqn:R'; intros [= <-]; [discriminate|]. intros _ N.
+    unfold process_rewrites in P. unfold process_rewrites_covered.
+    destruct (find_rewrites sort tbl (to_lower host) qt) as [rws m] eqn:F.
+    destruct (negb m); [injection P as <-; cbn in N; congruence|].
+    destruct (chase_covered_some _ _ _ _ _ _ _ _ _ _ P) as (b & B). rewrite B.
+    eapply chase_covered_spec; eauto.
+  Qed.
+
+  (** The canonical name is covered by the table, by no canonical-name
+      entry: the flag is set. *)
+  Theorem covered_flag_true en tbl host qt r :
+    check_host sort en tbl host qt = Some r -> r_reason r = Rewritten -> r_canon r <> [] ->
+    (exists e, In e tbl /\ matches_host e (r_canon r) = true) ->
+    (forall e, In e tbl -> matches_host e (r_canon r) = true -> is_cname e = false) ->
+    covered_flag sort en tbl host qt = true.
+  Proof.
+    intros C R N M NoC. rewrite (covered_flag_spec _ _ _ _ _ C R N). unfold canon_covered, covered_after.
+    apply (find_rewrites_matched sort) with (qt := qt) in M. rewrite M.
+    destruct (r_canon r); [congruence|]. cbn [is_nil negb andb].
+    destruct (fst (find_rewrites sort tbl (n :: b) qt)) as [|x l] eqn:E; [reflexivity|].
+    assert (Q : qualifies tbl (n :: b) qt x) by (apply (find_rewrites_In sort sort_perm); rewrite E; cbn; auto).
+    destruct Q as (Q1 & Q2 & _). rewrite (NoC _ Q1 Q2). reflexivity.
+  Qed.
+
+  (** The canonical name is outside the table: the flag is not set (the
+      name is resolved upstream, as before the fix). *)
+  Theorem covered_flag_outside en tbl host qt r :
+    check_host sort en tbl host qt = Some r -> r_reason r = Rewritten -> r_canon r <> [] ->
+    (forall e, In e tbl -> matches_host e (r_canon r) = false) ->
+    covered_flag sort en tbl host qt = false.
+  Proof.
+    intros C R N Out. rewrite (covered_flag_spec _ _ _ _ _ C R N). unfold canon_covered, covered_after.
+    replace (snd (find_rewrites sort tbl (r_canon r) qt)) with false; [rewrite andb_false_r; reflexivity|].
+    symmetry. rewrite find_rewrites_snd. rewrite filter_none; [reflexivity|]. auto.
+  Qed.
+End Covered.
+
 (** * The response side *)
 
 Section RespondProofs.
@@ -978,7 +1078,7 @@ Section RespondProofs.
   Proof.
     unfold respond. destruct (check_host sort en tbl qname qt) as [r|] eqn:C.
     - destruct (r_reason r); [destruct (upstream qname qt); discriminate|].
-      destruct (_ && _); [destruct (upstream (r_canon r) qt)|]; discriminate.
+      destruct (via_upstream _ _); [destruct (upstream (r_canon r) qt)|]; discriminate.
     - exfalso. revert C. apply check_host_terminates; auto.
   Qed.
 
@@ -996,19 +1096,38 @@ Section RespondProofs.
     destruct (qt =? qA); [reflexivity|]. destruct (qt =? qAAAA); reflexivity.
   Qed.
 
-  (** A CNAME without table addresses: the upstream is asked once, for the
-      canonical name; the delivered message has the original question and
-      the CNAME in front of the upstream's answer. *)
+  (** A CNAME without table addresses whose canonical name the table does
+      not cover ([covered_flag] false, e.g. [covered_flag_outside]): the
+      upstream is asked once, for the canonical name; the delivered message
+      has the original question and the CNAME in front of the upstream's
+      answer. *)
   Theorem respond_cname_via_upstream en tbl qname qt r :
     check_host sort en tbl qname qt = Some r ->
     r_reason r = Rewritten -> r_canon r <> [] -> r_ips r = [] ->
+    covered_flag sort en tbl qname qt = false ->
     respond sort upstream en tbl qname qt =
       Some {| rp_qname := qname; rp_rcode := fst (upstream (r_canon r) qt);
               rp_answer := RR_CNAME qname (r_canon r) :: snd (upstream (r_canon r) qt);
               rp_upstream := [(r_canon r, qt)] |}.
   Proof.
-    intros C R Cn I. unfold respond. rewrite C, R, I.
+    intros C R Cn I Cov. unfold respond, via_upstream. rewrite C, R, I, Cov.
     destruct (r_canon r); [congruence|]. cbn. destruct (upstream _ qt). reflexivity.
+  Qed.
+
+  (** ... and a canonical name that the table covers without a value of
+      the requested type ([covered_flag] true, e.g. [covered_flag_true]):
+      the CNAME alone, NOERROR, the upstream is not asked (fix 2e58a5d). *)
+  Theorem respond_cname_covered en tbl qname qt r :
+    check_host sort en tbl qname qt = Some r ->
+    r_reason r = Rewritten -> r_canon r <> [] -> r_ips r = [] ->
+    covered_flag sort en tbl qname qt = true ->
+    respond sort upstream en tbl qname qt =
+      Some {| rp_qname := qname; rp_rcode := 0;
+              rp_answer := [RR_CNAME qname (r_canon r)]; rp_upstream := [] |}.
+  Proof.
+    intros C R Cn I Cov. unfold respond, via_upstream. rewrite C, R, I, Cov.
+    destruct (r_canon r); [congruence|]. cbn.
+    destruct (qt =? qA); [reflexivity|]. destruct (qt =? qAAAA); reflexivity.
   Qed.
 
   (** Addresses answered without asking the upstream come from the table. *)
@@ -1019,7 +1138,7 @@ Section RespondProofs.
   Proof.
     unfold respond. destruct (check_host sort en tbl qname qt) as [r|]; [|discriminate].
     destruct (r_reason r); [destruct (upstream qname qt); intros [= <-]; discriminate|].
-    destruct (_ && _); [destruct (upstream (r_canon r) qt); intros [= <-]; discriminate|].
+    destruct (via_upstream _ _); [destruct (upstream (r_canon r) qt); intros [= <-]; discriminate|].
     intros [= <-] _. cbn [rp_answer]. intros H.
     assert (K : In (RR_A owner v) (if qt =? qA then answers_v4 (if is_nil (r_canon r) then qname else r_canon r) (r_ips r)
                  else if qt =? qAAAA then answers_v6 (if is_nil (r_canon r) then qname else r_canon r) (r_ips r) else []) \/
@@ -1299,7 +1418,7 @@ Section RespondNegative.
   Proof.
     unfold respond. destruct (check_host sort en tbl qname qt) as [r|]; [|discriminate].
     destruct (r_reason r); [destruct (upstream qname qt); intros [= <-]; reflexivity|].
-    destruct (_ && _); [destruct (upstream (r_canon r) qt)|]; intros [= <-]; reflexivity.
+    destruct (via_upstream _ _); [destruct (upstream (r_canon r) qt)|]; intros [= <-]; reflexivity.
   Qed.
 
   (** The RCODE is the upstream's for the one question put to it, and 0 for
@@ -1314,7 +1433,7 @@ Section RespondNegative.
     unfold respond. destruct (check_host sort en tbl qname qt) as [r|]; [|discriminate].
     destruct (r_reason r).
     - destruct (upstream qname qt) eqn:U. intros [= <-]. cbn. rewrite U. auto.
-    - destruct (_ && _).
+    - destruct (via_upstream _ _).
       + destruct (upstream (r_canon r) qt) eqn:U. intros [= <-]. cbn. rewrite U. auto.
       + intros [= <-]. reflexivity.
   Qed.
@@ -1326,13 +1445,14 @@ Section RespondNegative.
   Theorem respond_cname_via_upstream_any_reply upstream en tbl qname qt r rc ans :
     check_host sort en tbl qname qt = Some r ->
     r_reason r = Rewritten -> r_canon r <> [] -> r_ips r = [] ->
+    covered_flag sort en tbl qname qt = false ->
     upstream (r_canon r) qt = (rc, ans) ->
     respond sort upstream en tbl qname qt =
       Some {| rp_qname := qname; rp_rcode := rc;
               rp_answer := RR_CNAME qname (r_canon r) :: ans;
               rp_upstream := [(r_canon r, qt)] |}.
   Proof.
-    intros C R Cn I U. rewrite (respond_cname_via_upstream sort upstream en tbl qname qt r C R Cn I).
+    intros C R Cn I Cov U. rewrite (respond_cname_via_upstream sort upstream en tbl qname qt r C R Cn I Cov).
     rewrite U. reflexivity.
   Qed.
 
@@ -1343,14 +1463,14 @@ Section RespondNegative.
   Proof.
     unfold respond_e, respond, forward. destruct (check_host sort en tbl qname qt) as [r|]; [|reflexivity].
     destruct (r_reason r); [destruct (upstream qname qt); reflexivity|].
-    destruct (_ && _); [destruct (upstream (r_canon r) qt); reflexivity|reflexivity].
+    destruct (via_upstream _ _); [destruct (upstream (r_canon r) qt); reflexivity|reflexivity].
   Qed.
 
   Theorem respond_e_terminates upstream en tbl qname qt :
     respond_e sort upstream en tbl qname qt <> None.
   Proof.
     unfold respond_e. destruct (check_host sort en tbl qname qt) as [r|] eqn:C.
-    - destruct (r_reason r); [discriminate|]. destruct (_ && _); discriminate.
+    - destruct (r_reason r); [discriminate|]. destruct (via_upstream _ _); discriminate.
     - exfalso. revert C. apply check_host_terminates; auto.
   Qed.
 
@@ -1363,7 +1483,7 @@ Section RespondNegative.
     unfold respond_e, forward. destruct (check_host sort en tbl qname qt) as [r|]; [|discriminate].
     destruct (r_reason r).
     - destruct (upstream qname qt) as [[rc ans]|]; intros [= <- <-]; reflexivity.
-    - destruct (_ && _); [destruct (upstream (r_canon r) qt) as [[rc ans]|]|]; intros [= <- <-]; reflexivity.
+    - destruct (via_upstream _ _); [destruct (upstream (r_canon r) qt) as [[rc ans]|]|]; intros [= <- <-]; reflexivity.
   Qed.
 
   Theorem respond_e_failed_only_by_upstream upstream en tbl qname qt p :
@@ -1375,7 +1495,7 @@ Section RespondNegative.
     destruct (r_reason r).
     - destruct (upstream qname qt) as [[rc ans]|] eqn:U; [discriminate|]. intros [= <-].
       exists qname. cbn. auto.
-    - destruct (_ && _); [|discriminate].
+    - destruct (via_upstream _ _); [|discriminate].
       destruct (upstream (r_canon r) qt) as [[rc ans]|] eqn:U; [discriminate|]. intros [= <-].
       exists (r_canon r). cbn. auto.
   Qed.
